@@ -26,13 +26,15 @@ package mpb
 //@   ensures  done: !s.aborted && s.triggerComplete && s.current == s.total ==> result
 //@   ensures  exclusive: s.aborted ==> !result
 
+// b.cancel(): the bar's context is cancelled (ghost cancelled(b), permanent)
 //@ functype Bar.cancel
-//@   modifies nothing
+//@   modifies cancelled(self)
+//@   ensures  cancelled(self)
 
 //@ func (*bState).triggerCompletion
 //@   props    C09 C04
 //@   requires s != nil && b != nil
-//@   modifies s.triggerComplete, spawned("(*Bar).tryEarlyRefresh")
+//@   modifies s.triggerComplete, spawned("(*Bar).tryEarlyRefresh"), cancelled(b)
 //@   ensures  trig: s.triggerComplete
 //@   ensures  auto: s.autoRefresh ==> spawned("(*Bar).tryEarlyRefresh") == old(spawned("(*Bar).tryEarlyRefresh")) + 1
 //@                  && called("Bar.cancel") == old(called("Bar.cancel"))
@@ -46,7 +48,7 @@ package mpb
 //@   props    C09 C11 C10
 //@   wraps
 //@   requires s != nil && b != nil
-//@   modifies s.current, s.triggerComplete, spawned("(*Bar).tryEarlyRefresh")
+//@   modifies s.current, s.triggerComplete, spawned("(*Bar).tryEarlyRefresh"), cancelled(b)
 //@   ensures  capped: old(s.triggerComplete) && wrap64(old(s.current) + n) >= old(s.total)
 //@              ==> s.current == old(s.total) && s.triggerComplete
 //@   ensures  plain: !(old(s.triggerComplete) && wrap64(old(s.current) + n) >= old(s.total))
@@ -57,7 +59,7 @@ package mpb
 //@ func (*Bar).SetCurrent$1
 //@   props    C09 C11 C10
 //@   requires s != nil && b != nil
-//@   modifies s.current, s.triggerComplete, spawned("(*Bar).tryEarlyRefresh")
+//@   modifies s.current, s.triggerComplete, spawned("(*Bar).tryEarlyRefresh"), cancelled(b)
 //@   ensures  capped: old(s.triggerComplete) && current >= old(s.total)
 //@              ==> s.current == old(s.total) && s.triggerComplete
 //@   ensures  plain: !(old(s.triggerComplete) && current >= old(s.total))
@@ -68,7 +70,7 @@ package mpb
 //@ func (*Bar).SetTotal$1
 //@   props    C09 C11 C10
 //@   requires s != nil && b != nil
-//@   modifies s.total, s.current, s.triggerComplete, spawned("(*Bar).tryEarlyRefresh")
+//@   modifies s.total, s.current, s.triggerComplete, spawned("(*Bar).tryEarlyRefresh"), cancelled(b)
 //@   ensures  ignored: old(s.triggerComplete) ==> s.total == old(s.total) && s.current == old(s.current) && s.triggerComplete
 //@   ensures  adopt: !old(s.triggerComplete) && total < 0 ==> s.total == old(s.current)
 //@   ensures  set: !old(s.triggerComplete) && total >= 0 ==> s.total == total
@@ -80,7 +82,7 @@ package mpb
 //@ func (*Bar).EnableTriggerComplete$1
 //@   props    C09 C11 C10
 //@   requires s != nil && b != nil
-//@   modifies s.current, s.triggerComplete, spawned("(*Bar).tryEarlyRefresh")
+//@   modifies s.current, s.triggerComplete, spawned("(*Bar).tryEarlyRefresh"), cancelled(b)
 //@   ensures  ignored: old(s.triggerComplete) ==> s.current == old(s.current)
 //@   ensures  enabled: s.triggerComplete && s.total == old(s.total)
 //@   ensures  capped: !old(s.triggerComplete) && old(s.current) >= old(s.total) ==> s.current == s.total
@@ -98,7 +100,7 @@ package mpb
 //@ func (*Bar).Abort$1
 //@   props    C09 C11 C10
 //@   requires s != nil && b != nil
-//@   modifies s.aborted, s.rmOnComplete, s.triggerComplete, spawned("(*Bar).tryEarlyRefresh")
+//@   modifies s.aborted, s.rmOnComplete, s.triggerComplete, spawned("(*Bar).tryEarlyRefresh"), cancelled(b)
 //@   ensures  noop: old(s.aborted) || old(s.completed())
 //@              ==> s.aborted == old(s.aborted) && s.rmOnComplete == old(s.rmOnComplete) && s.triggerComplete == old(s.triggerComplete)
 //@   ensures  abort: !old(s.aborted) && !old(s.completed()) ==> s.aborted && s.rmOnComplete == drop
@@ -299,7 +301,7 @@ package mpb
 //@   wraps
 //@   requires s != nil && b != nil
 //@   requires forall(i, 0, len(s.ewmaDecorators), s.ewmaDecorators[i] != nil)
-//@   modifies s.current, s.triggerComplete, spawned("(*Bar).tryEarlyRefresh"), spawned("(*Bar).EwmaIncrInt64$1$1")
+//@   modifies s.current, s.triggerComplete, spawned("(*Bar).tryEarlyRefresh"), spawned("(*Bar).EwmaIncrInt64$1$1"), cancelled(b)
 //@   loop 1   invariant spawned("(*Bar).EwmaIncrInt64$1$1") == old(spawned("(*Bar).EwmaIncrInt64$1$1")) + rangeindex + 1
 //@   loop 1   invariant s.current == old(s.current) && s.triggerComplete == old(s.triggerComplete) && s.total == old(s.total) && s.aborted == old(s.aborted)
 //@   ensures  all: spawned("(*Bar).EwmaIncrInt64$1$1") == old(spawned("(*Bar).EwmaIncrInt64$1$1")) + len(s.ewmaDecorators)
@@ -322,7 +324,7 @@ package mpb
 //@   wraps
 //@   requires s != nil && b != nil
 //@   requires forall(i, 0, len(s.ewmaDecorators), s.ewmaDecorators[i] != nil)
-//@   modifies s.current, s.triggerComplete, spawned("(*Bar).tryEarlyRefresh"), spawned("(*Bar).EwmaSetCurrent$1$1")
+//@   modifies s.current, s.triggerComplete, spawned("(*Bar).tryEarlyRefresh"), spawned("(*Bar).EwmaSetCurrent$1$1"), cancelled(b)
 //@   loop 1   invariant spawned("(*Bar).EwmaSetCurrent$1$1") == old(spawned("(*Bar).EwmaSetCurrent$1$1")) + rangeindex + 1
 //@   loop 1   invariant s.current == old(s.current) && s.triggerComplete == old(s.triggerComplete) && s.total == old(s.total) && s.aborted == old(s.aborted)
 //@   ensures  all: spawned("(*Bar).EwmaSetCurrent$1$1") == old(spawned("(*Bar).EwmaSetCurrent$1$1")) + len(s.ewmaDecorators)
@@ -732,7 +734,6 @@ package mpb
 //@            && unboxAs(lastSent(m).data, "pushData").bar == b && unboxAs(lastSent(m).data, "pushData").sync == sync
 //@   ensures  inline: spawned() == old(spawned())
 
-
 //@ func (*Bar).wSyncTable
 //@   props    C12 C02
 //@   requires b != nil
@@ -816,6 +817,7 @@ package mpb
 //@   loop 1   ensures successor@C17,C05,C06: frame.shutdown == 1 && iter(has(s.queueBars, now(b)))
 //@              ==> len(pushes) == iter(len(pushes)) + 1 && pushes[len(pushes) - 1].bar == iter(s.queueBars[now(b)]) && pushes[len(pushes) - 1].sync
 //@                  && pushes[len(pushes) - 1].bar.priority == b.priority && !has(s.queueBars, b)
+//@   loop 1   ensures retired@C17: (frame.shutdown == 1 ==> b.retired) && (frame.shutdown != 1 ==> b.retired == iter(now(b).retired))
 //@   loop 1   ensures slot@C17: frame.shutdown != 1 ==> mapdom(s.queueBars) == iter(mapdom(s.queueBars)) && mapval(s.queueBars) == iter(mapval(s.queueBars))
 //@   loop 1   ensures toppop@C18,C06,C05: frame.shutdown == 1 && !iter(has(s.queueBars, now(b))) && s.popCompleted && !frame.noPop
 //@              ==> len(pushes) == iter(len(pushes)) + 1 && pushes[len(pushes) - 1].bar == b && !pushes[len(pushes) - 1].sync
@@ -859,3 +861,76 @@ package mpb
 //@ func NewWithContext
 //@   props    C02 C05 C04
 //@   loop 1   invariant s != nil && s.iterDrop != nil && s.renderReq != nil && s.queueBars != nil && s.ctx != nil && fresh(s)
+
+// ---------------------------------------------------------------------------------------
+// creating bars (C09 initial state, C05/C17 accounting, C06 default priority)
+
+//@ functype BarOption
+//@   props    C09 C02 C17 C05
+//@   params   s
+//@   requires s != nil && forall(i, 0, len(s.decorGroups[0]), s.decorGroups[0][i] != nil) && forall(i, 0, len(s.decorGroups[1]), s.decorGroups[1][i] != nil)
+//@   ensures  forall(i, 0, len(s.decorGroups[0]), s.decorGroups[0][i] != nil) && forall(i, 0, len(s.decorGroups[1]), s.decorGroups[1][i] != nil)
+//@   modifies bState.decorGroups, bState.id, bState.reqWidth, bState.waitBar, bState.rmOnComplete, bState.filler, bState.priority, bState.extender, bState.trimSpace, bState.noPop
+
+//@ functype BarFillerMiddleware$1.middle
+//@   modifies nothing
+
+//@ func (pState).makeBarState
+//@   props    C09 C06 C19 C02 C17 C05
+//@   requires filler != nil
+//@   loop 1   invariant bs != nil && fresh(bs) && bs.total == total && bs.current == 0 && bs.refill == 0 && bs.triggerComplete == (total > 0) && !bs.aborted && bs.shutdown == 0
+//@   loop 1   invariant bs.renderReq == s.renderReq && bs.autoRefresh == s.autoRefresh
+//@   loop 1   invariant forall(i, 0, len(bs.decorGroups[0]), bs.decorGroups[0][i] != nil) && forall(i, 0, len(bs.decorGroups[1]), bs.decorGroups[1][i] != nil)
+//@   loop 2   invariant forall(i, 0, len(bs.decorGroups[0]), bs.decorGroups[0][i] != nil) && forall(i, 0, len(bs.decorGroups[1]), bs.decorGroups[1][i] != nil)
+//@   loop 3   invariant forall(i, 0, len(group), group[i] != nil)
+//@   loop 2   invariant bs != nil && fresh(bs) && bs.total == total && bs.current == 0 && bs.refill == 0 && bs.triggerComplete == (total > 0) && !bs.aborted && bs.shutdown == 0
+//@   loop 2   invariant forall(i, 0, len(bs.ewmaDecorators), bs.ewmaDecorators[i] != nil)
+//@   loop 3   invariant bs != nil && fresh(bs) && bs.total == total && bs.current == 0 && bs.refill == 0 && bs.triggerComplete == (total > 0) && !bs.aborted && bs.shutdown == 0
+//@   loop 3   invariant forall(i, 0, len(bs.ewmaDecorators), bs.ewmaDecorators[i] != nil)
+//@   ensures  result != nil && fresh(result)
+//@   ensures  initial@C09: result.total == total && result.current == 0 && result.refill == 0 && result.triggerComplete == (total > 0) && !result.aborted && result.shutdown == 0
+//@   ensures  ewma@C19: forall(i, 0, len(result.ewmaDecorators), result.ewmaDecorators[i] != nil)
+//@   ensures  buffers@C07: result.buffers[0] != nil && result.buffers[1] != nil && result.buffers[2] != nil
+//@              && result.buffers[0] != result.buffers[1] && result.buffers[0] != result.buffers[2] && result.buffers[1] != result.buffers[2]
+
+//@ func (*Progress).Add$1
+//@   props    C05 C17 C06 C02
+//@   requires ps != nil && p != nil && filler != nil && ch != nil && !closed(ch) && !closed(ps.hm) && ps.idCount < 1<<62
+//@   requires parked: forall(k, has(ps.queueBars, k) ==> ps.queueBars[k] != nil)
+//@   loop 1   invariant key != nil && bar != nil && fresh(bar) && bs != nil && fresh(bs) && bs.waitBar != nil && !bs.waitBar.retired
+//@   loop 1   invariant mapdom(ps.queueBars) == old(mapdom(ps.queueBars)) && mapval(ps.queueBars) == old(mapval(ps.queueBars))
+//@   loop 1   invariant called("(heapManager).push") == old(called("(heapManager).push")) && ps.idCount == old(ps.idCount) && sent(ch) == old(sent(ch))
+//@   loop 1   invariant !closed(ch) && ps.queueBars != nil
+//@   loop 1   invariant ok == has(ps.queueBars, key) && (ok ==> qb == ps.queueBars[key])
+//@   ensures  counted@C06: ps.idCount == old(ps.idCount) + 1
+//@   ensures  answered: sent(ch) == old(sent(ch)) + 1 && lastSent(ch) != nil
+//@   ensures  accounted@C05,C17: called("(heapManager).push") == old(called("(heapManager).push")) + 1 && calledWith("(heapManager).push", 1) == lastSent(ch) && calledWith("(heapManager).push", 2) == true
+//@              || called("(heapManager).push") == old(called("(heapManager).push")) && exists(k, has(ps.queueBars, k) && ps.queueBars[k] == lastSent(ch) && !old(has(ps.queueBars, k)))
+//@   ensures  live@C17: called("(heapManager).push") == old(called("(heapManager).push")) ==> bs.waitBar != nil && !bs.waitBar.retired
+//@   ensures  nooverwrite@C17: forall(k, old(has(ps.queueBars, k)) ==> has(ps.queueBars, k) && ps.queueBars[k] == old(ps.queueBars[k]))
+//@   ensures  parkedstill: forall(k, has(ps.queueBars, k) ==> ps.queueBars[k] != nil)
+
+//@ func unwrap
+//@   props    C14 C19 C02
+//@   requires d != nil
+//@   modifies nothing
+//@   ensures  result != nil
+
+//@ func PrependDecorators
+//@   props    C09 C02
+//@   loop 1   invariant forall(i, 0, len(group), group[i] != nil)
+//@   ensures  result != nil
+//@ func PrependDecorators$1
+//@   props    C09 C02
+//@   requires s != nil && forall(i, 0, len(group), group[i] != nil) && forall(i, 0, len(s.decorGroups[1]), s.decorGroups[1][i] != nil)
+//@   modifies s.decorGroups
+//@   ensures  forall(i, 0, len(s.decorGroups[0]), s.decorGroups[0][i] != nil) && forall(i, 0, len(s.decorGroups[1]), s.decorGroups[1][i] != nil)
+//@ func AppendDecorators
+//@   props    C09 C02
+//@   loop 1   invariant forall(i, 0, len(group), group[i] != nil)
+//@   ensures  result != nil
+//@ func AppendDecorators$1
+//@   props    C09 C02
+//@   requires s != nil && forall(i, 0, len(group), group[i] != nil) && forall(i, 0, len(s.decorGroups[0]), s.decorGroups[0][i] != nil)
+//@   modifies s.decorGroups
+//@   ensures  forall(i, 0, len(s.decorGroups[0]), s.decorGroups[0][i] != nil) && forall(i, 0, len(s.decorGroups[1]), s.decorGroups[1][i] != nil)
